@@ -1,6 +1,7 @@
 """C02 -- well-formed PDFs from any producer load to their content.
 
 Cases
+  (write style adoc) / (writem style (parts) adoc)  stage 1: the extracted reference writer, one or several cross-reference sections
   (load xBYTES (ids) <expected>)   produced in two stages: the generator draws (style, abstract document), the EXTRACTED
                                    reference writer (coq/Spec/RefWriter.v) turns them into bytes and into the expected content;
                                    the harness feeds the bytes to the real Document::load_mem
@@ -230,8 +231,17 @@ def g_sfilter(rng, wild):
                        L('ahx', str(rng.randint(0, 1)), L(*[str(rng.randint(0, 40)) for _ in range(rng.randint(0, 5))]))])
 
 
-def g_secs(rng, size, used, wild):
-    """a legal partition into subsections: covers 0 and every used number"""
+def g_secs(rng, size, used, wild, skip0=False):
+    """a legal partition into subsections: covers 0 and every used number; skip0 (cross-reference streams only, 7.5.8): object 0 is
+    not listed and no sub-section runs over a gap, so that every listed entry is in use"""
+    if skip0:
+        secs = []
+        for n in sorted(set(u for u in used if 0 < u < size)):
+            if secs and secs[-1][0] + secs[-1][1] == n and rng.random() < 0.8:
+                secs[-1] = (secs[-1][0], secs[-1][1] + 1)
+            else:
+                secs.append((n, 1))
+        return secs
     if rng.random() > wild:
         return [(0, size)]
     nums = sorted(set([0] + [u for u in used if u < size]))
@@ -252,6 +262,100 @@ def g_secs(rng, size, used, wild):
     return secs
 
 
+def g_xstyle(rng, g, xkind, xid, secs, tstyle, wild, narrow):
+    """the style of one cross-reference section; narrow: prefer W [0 n m] / W [0 n 0] (the writer keeps a zero width only where
+    every listed entry has the default value)"""
+    secs_sx = L(*[L(str(a), str(b)) for a, b in secs])
+    if xkind == 'table':
+        nent = sum(c for _, c in secs)
+        return L('table', secs_sx, L(*[str(rng.randint(0, 2)) for _ in range(rng.choice([0, 1, nent]))]), str(rng.randint(0, 2)),
+                 L(*[str(rng.randint(0, 2)) for _ in range(len(secs))]), L(*[str(rng.randint(0, 1)) for _ in range(len(secs))]),
+                 g.fill(), tstyle, g.fill())
+    w = [rng.choice([0, 1, 1, 2, 3, 4, 5, 8]), rng.choice([0, 1, 2, 3, 4, 4, 5, 8]), rng.choice([0, 0, 1, 2, 3, 8])]
+    if narrow:
+        w[0] = rng.choice([0, 0, 0, 1, 2])
+        w[2] = rng.choice([0, 0, 1, 2])
+    return L('stream', str(xid), str(w[0]), str(w[1]), str(w[2]), secs_sx, str(rng.randint(0, 1)), g_sfilter(rng, max(wild, 0.5)),
+             str(rng.randint(0, 1)), g.istyle(tstyle))
+
+
+def g_runs(rng, nums, split=0.2):
+    """sub-sections listing exactly the numbers [nums]: maximal runs, sometimes cut"""
+    secs = []
+    for n in sorted(set(nums)):
+        if secs and secs[-1][0] + secs[-1][1] == n and rng.random() >= split:
+            secs[-1] = (secs[-1][0], secs[-1][1] + 1)
+        else:
+            secs.append((n, 1))
+    return secs
+
+
+def g_sxblock(rng, wild):
+    return L(str(rng.randint(0, 2)) if wild else '1', str(rng.choice([0, 0, 1, 2]) if wild else 0), str(rng.choice([0, 0, 1]) if wild else 0),
+             str(rng.randint(0, 2)) if wild else '1', rng.choice(['none', '0', '1', '2']) if wild else '1')
+
+
+def gen_parts(rng, profile, g, wild, objs, ostms, comp, cont_ids, members_of, spare, tstyle):
+    """a file of 2-3 parts (objects + cross-reference section with Prev), see Spec/RefWriter.v ref_write_multi: every part lists
+    the objects it holds; a later part may list an object of an earlier part again (same entry) and, with profile['redef'],
+    earlier parts hold superseded definitions of objects that a later part defines.  Returns (parts sx, xids, tags)"""
+    tops = [o[0] for o in objs if o[0] not in comp] + list(cont_ids)
+    k = min(len(tops), rng.choice([2, 2, 3]))
+    rng.shuffle(tops)
+    cuts = sorted(rng.sample(range(1, len(tops)), k - 1)) if k > 1 else []
+    groups = [tops[a:b] for a, b in zip([0] + cuts, cuts + [len(tops)])]
+    defines = [set(gr) | set(m for c in gr if c in members_of for m in members_of[c]) for gr in groups]
+    mode = profile['xref']
+    parts, xids = [], []
+    listed_before = set()       # numbers with an in-use entry in an earlier section
+    nredef = nrelist = 0
+    for i, gr in enumerate(groups):
+        has_cont = any(c in members_of for c in gr)
+        xkind = 'stream' if has_cont or mode == 'stream' else 'table' if mode == 'table' else rng.choice(['table', 'stream'])
+        xid = None
+        if xkind == 'stream':
+            xid = spare.pop()
+            xids.append(xid)
+        later = set().union(*defines[i + 1:]) if i + 1 < len(groups) else set()
+        olds = []
+        later -= set(members_of)         # a container is not an object of the document: no superseded containers
+        if profile.get('redef') and later and rng.random() < 0.8:
+            for n in rng.sample(sorted(later), min(len(later), rng.choice([1, 1, 2]))):
+                if rng.random() < 0.3:
+                    content = rbytes(rng, 20)
+                    d, _ = g.dict(1, [(b'Length', I(len(content)), 'def')])
+                    o = L('st', d, xb(content))
+                else:
+                    o, _ = g.obj(2, allow_null=False)
+                    if rng.random() < 0.5:
+                        o = D([(b'Superseded', o)])
+                olds.append((n, o))
+        here = set(defines[i]) | set(n for n, _ in olds) | ({xid} if xid else set())
+        relist = []
+        if i > 0 and listed_before - here and rng.random() < 0.6:
+            cand = sorted(listed_before - here)
+            relist = rng.sample(cand, min(len(cand), rng.choice([1, 1, 2, 3])))
+        nredef += len(olds)
+        nrelist += len(relist)
+        if i == 0:
+            size = max(here) + 1
+            narrow = xkind == 'stream' and rng.random() < 0.3
+            secs = g_secs(rng, size, sorted(here), max(wild, 0.5), narrow)
+        else:
+            narrow = True
+            lst = set(here) | set(relist)
+            if rng.random() < 0.2:
+                lst.add(0)
+            secs = g_runs(rng, lst)
+        xs = g_xstyle(rng, g, xkind, xid, secs, tstyle, wild, narrow and not has_cont)
+        order = [n for n in gr] + [n for n, _ in olds]
+        rng.shuffle(order)
+        parts.append(L('part', L(*[str(n) for n in gr]), L(*[L(str(n), o) for n, o in olds]), L(*[str(n) for n in relist]),
+                       L(*[str(n) for n in order]), xs, g_sxblock(rng, wild)))
+        listed_before |= here
+    return L(*parts), xids, (len(groups), nredef, nrelist)
+
+
 def gen_write(rng, profile):
     """returns (write line, tags)"""
     wild = {'plain': 0.0, 'mild': 0.4, 'wild': 1.0}[profile['lex']]
@@ -259,6 +363,8 @@ def gen_write(rng, profile):
     AHX[0] = profile.get('ahx', False)
     PNG[0] = png = profile.get('png', False)
     n = rng.choice([1, 2, 3, 5, 8, 12])
+    if profile.get('multi'):
+        n = rng.choice([3, 5, 8])
     if png:
         n = rng.choice([3, 5, 8, 12])
     nums = rng.sample(range(1, max(3 * n, 20)), n)
@@ -270,8 +376,10 @@ def gen_write(rng, profile):
     lens = []
     free_nums = [k for k in range(1, max(3 * n, 20) + 8) if k not in nums]
     rng.shuffle(free_nums)
+    skip0 = profile.get('skip0', False) or (profile['xref'] == 'stream' and not png and rng.random() < 0.15)
+    gen0 = skip0 and rng.random() < 0.6          # every generation 0: the third field of a cross-reference stream may have width 0
     for num in nums:
-        gen = 0 if rng.random() < 0.8 else rng.choice([1, 2, 65535])
+        gen = 0 if gen0 or rng.random() < 0.8 else rng.choice([1, 2, 65535])
         r = rng.random()
         if png and profile.get('big') and big is None:
             # a file above 32 KiB: the offsets behind this stream have bytes >= 0x80
@@ -288,7 +396,7 @@ def gen_write(rng, profile):
                                   bytes(rng.getrandbits(8) for _ in range(rng.randint(0, 300)))])
             if rng.random() < 0.5 and free_nums and profile.get('indirect_length', True):
                 ln = free_nums.pop()
-                lgen = 0 if rng.random() < 0.8 else 3
+                lgen = 0 if gen0 or rng.random() < 0.8 else 3
                 lens.append((ln, lgen, I(len(content)), 'def', False))
                 length = (b'Length', REF(ln, lgen), 'def')
             else:
@@ -313,7 +421,7 @@ def gen_write(rng, profile):
     tr = [(b'Root', REF(nums[0], 0), 'def')]
     if rng.random() < 0.5:
         tr.append((b'Info', REF(rng.choice(all_nums), 0), 'def'))
-    if profile['xref'] == 'stream':
+    if profile['xref'] != 'table':
         RAWCR[0] = False
     if rng.random() < 0.4:
         i1, i2 = rbytes(rng, 16), rbytes(rng, 16)
@@ -326,7 +434,7 @@ def gen_write(rng, profile):
     ostms = []
     extra_ids = []
     spare = [k for k in free_nums]
-    if xkind == 'stream' and profile.get('objstm', False):
+    if xkind in ('stream', 'mixed') and profile.get('objstm', False):
         cands = [o for o in objs if o[1] == 0 and not o[4]]
         rng.shuffle(cands)
         ngroups = rng.choice([1, 1, 2])
@@ -344,23 +452,33 @@ def gen_write(rng, profile):
     comp = set()
     for o in ostms:
         comp |= set(int(x) for x in re.match(r'\(\d+ \(([\d ]*)\)', o).group(1).split())
+    if profile.get('multi'):
+        members_of = {}
+        for o in ostms:
+            m = re.match(r'\((\d+) \(([\d ]*)\)', o)
+            members_of[int(m.group(1))] = [int(x) for x in m.group(2).split()]
+        spare = [k for k in spare if k > 0] + [max(all_nums + extra_ids + spare) + 1 + j for j in range(3)]
+        parts, xids, (nparts, nredef, nrelist) = gen_parts(rng, profile, g, wild, objs, ostms, comp, list(extra_ids), members_of, spare, tstyle)
+        extra_ids += xids
+        junk = b''
+        if rng.random() < wild * 0.5:
+            junk = rng.choice([b'\n', b'\xef\xbb\xbf', b'junk before the header\r\n', b'%!PS-Adobe\n'])
+        binary = 'none' if rng.random() < 0.4 else L(xb(rng.choice([b'\xe2\xe3\xcf\xd3', b'\xff\xfe\xfd\xfc'])), str(rng.randint(0, 2)))
+        dummy = L('table', L(), L(), '1', L(), L(), L(), 'def', L())
+        style = L('style', xb(junk), str(rng.randint(0, 2)) if wild else '1', binary, L(),
+                  L(*[L(str(num), g.istyle(s)) for num, gen, o, s, st in objs if num not in comp]),
+                  L(*ostms), dummy, '1', '0', '0', '1', '1')
+        tags = {'kind': 'load-multi%d-%s-%s%s%s%s' % (nparts, xkind, profile['lex'], '-objstm' if ostms else '', '-redef' if nredef else '',
+                                                     '-relist' if nrelist else ''), 'ignore': extra_ids, 'nontrivial': True}
+        return L('writem', style, parts, adoc), tags
     used = all_nums + extra_ids
     if xkind == 'stream':
         xid = spare.pop() if spare else max(used) + 1
         used.append(xid)
         extra_ids.append(xid)
     size = max(used) + 1
-    secs = g_secs(rng, size, used, max(wild, 0.5))
-    secs_sx = L(*[L(str(a), str(b)) for a, b in secs])
-    if xkind == 'table':
-        nent = sum(c for _, c in secs)
-        xs = L('table', secs_sx, L(*[str(rng.randint(0, 2)) for _ in range(rng.choice([0, 1, nent]))]), str(rng.randint(0, 2)),
-               L(*[str(rng.randint(0, 2)) for _ in range(len(secs))]), L(*[str(rng.randint(0, 1)) for _ in range(len(secs))]),
-               g.fill(), tstyle, g.fill())
-    else:
-        w = [rng.choice([0, 1, 1, 2, 3, 4, 5, 8]), rng.choice([0, 1, 2, 3, 4, 4, 5, 8]), rng.choice([0, 0, 1, 2, 3, 8])]
-        xs = L('stream', str(xid), str(w[0]), str(w[1]), str(w[2]), secs_sx, str(rng.randint(0, 1)), g_sfilter(rng, max(wild, 0.5)),
-               str(rng.randint(0, 1)), g.istyle(tstyle))
+    secs = g_secs(rng, size, used, max(wild, 0.5), skip0 and xkind == 'stream')
+    xs = g_xstyle(rng, g, xkind, xid if xkind == 'stream' else None, secs, tstyle, wild, skip0)
     order = [o[0] for o in objs if o[0] not in comp] + [e for e in extra_ids if xkind != 'stream' or e != xid]
     if rng.random() < 0.7:
         rng.shuffle(order)
@@ -376,7 +494,8 @@ def gen_write(rng, profile):
               L(*ostms), xs,
               str(rng.randint(0, 2)) if wild else '1', str(rng.choice([0, 0, 1, 2]) if wild else 0), str(rng.choice([0, 0, 1]) if wild else 0),
               str(rng.randint(0, 2)) if wild else '1', rng.choice(['none', '0', '1', '2']) if wild else '1')
-    tags = {'kind': 'load-%s-%s%s%s' % (xkind, profile['lex'], '-objstm' if ostms else '', ('-png-big' if big is not None else '-png') if png else ''), 'ignore': extra_ids, 'nontrivial': True}
+    tags = {'kind': 'load-%s-%s%s%s%s' % (xkind, profile['lex'], '-objstm' if ostms else '', ('-png-big' if big is not None else '-png') if png else '',
+                                          '-skip0' if skip0 and xkind == 'stream' else ''), 'ignore': extra_ids, 'nontrivial': True}
     return L('write', style, adoc), tags
 
 
@@ -389,6 +508,11 @@ PROFILES = [
     ({'lex': 'mild', 'xref': 'table', 'deep': True}, 1), ({'lex': 'mild', 'xref': 'stream', 'objstm': True, 'ahx': True}, 1),
     ({'lex': 'plain', 'xref': 'stream', 'objstm': True, 'png': True}, 1), ({'lex': 'mild', 'xref': 'stream', 'objstm': True, 'png': True}, 2),
     ({'lex': 'mild', 'xref': 'stream', 'png': True, 'big': True}, 1), ({'lex': 'plain', 'xref': 'stream', 'objstm': True, 'png': True, 'big': True}, 1),
+    ({'lex': 'mild', 'xref': 'stream', 'skip0': True}, 2), ({'lex': 'plain', 'xref': 'stream', 'skip0': True}, 1),
+    # several cross-reference sections linked by Prev: disjoint object sets, objects listed again, superseded definitions
+    ({'lex': 'mild', 'xref': 'table', 'multi': True}, 1), ({'lex': 'mild', 'xref': 'table', 'multi': True, 'redef': True}, 2),
+    ({'lex': 'plain', 'xref': 'stream', 'multi': True, 'redef': True}, 1), ({'lex': 'mild', 'xref': 'stream', 'multi': True, 'objstm': True}, 1),
+    ({'lex': 'mild', 'xref': 'mixed', 'multi': True, 'objstm': True, 'redef': True}, 2), ({'lex': 'wild', 'xref': 'mixed', 'multi': True, 'redef': True}, 1),
 ]
 
 
@@ -714,7 +838,10 @@ SPEC = {
             'streams with direct or indirect Length; styles randomise fillers (6 white-space bytes, comments with every EOL), name escapes, '
             'literal/hex string spellings (octal 1-3 digits, short escapes, ignored backslash, continuations, raw EOLs, hex white-space, odd '
             'digit), number spellings, object order, xref table sectioning and entry EOLs or xref stream W/Index/filters/PNG predictor, object '
-            'streams, junk before the header; bytes come from the extracted reference writer and go to Document::load_mem; plus the asset '
+            'streams, junk before the header; cross-reference streams that do not list object 0 with W [0 n m] / W [0 n 0]; files of 2-3 '
+            'parts whose cross-reference sections (tables, streams, mixed) are linked by Prev, with disjoint object sets, objects listed '
+            'again at the same offset and superseded definitions in earlier parts; '
+            'bytes come from the extracted reference writer and go to Document::load_mem; plus the asset '
             'files; plus valid and malformed inputs for decode_xref_stream, the xref table parser and ObjectStream::new against their models; '
             'non-trivial = the reference writer produced a file / every direct case; distinct = distinct case text',
     'extra_trusted': ['C02: the reference writer coq/Spec/RefWriter.v is the specification of "a syntactically valid PDF file" (written from '
